@@ -3445,7 +3445,7 @@ impl Config {
     /// yields requests intended to recreate a proxy that match the config
     pub fn generate_config_messages(&self) -> Result<Vec<WorkerRequest>, ConfigError> {
         let mut v = Vec::new();
-        let mut count = 0u8;
+        let mut count = 0usize;
 
         for listener in &self.http_listeners {
             v.push(WorkerRequest {
